@@ -18,14 +18,17 @@ R = [1024, 256, 1000]
 
 
 class Store(object):
-    def __init__(self, float_file=False, from_handle=False):
+    def __init__(self, float_file=False, from_handle=False, minimal=False):
         self.from_handle = from_handle
         self.handles = []
         d = tlc.scratch('heap_')
         self.path = os.path.join(d, 'h.fcs')
         extra = [('$BTIM', '10:00:00'), ('$ETIM', '10:05:00'), ('$DATE', '01-Jan-2020'), ('$TIMESTEP', '0.01'),
                  ('MYKEY', 'my/value')]
-        if float_file:
+        if minimal:
+            # only the required keywords: every optional attribute (time step, start / end time, voltages, gains, labels) is absent
+            fcsgen.write_sample(self.path, EVENTS, ['c1', 'c2', 'c3'], R, bits=16, pne=['0,0', '4,1', '2,0.5'])
+        elif float_file:
             fcsgen.write_sample(self.path, [[float(v) for v in r] for r in EVENTS], ['c1', 'c2', 'c3'], R, datatype='F',
                                 pne=['0,0', '4,1', '2,0.5'], png=['2', None, None], pnv=['400', '500', '600'],
                                 pns=['A', None, 'C'], extra=extra, analysis_pairs=[('AK', 'av')])
